@@ -21,7 +21,7 @@ META = {
             "Trusted: numpy.histogramdd as executed by physt is part of the code under test, not of the oracle. Bounds: rows<=2-3, d<=4.",
             "bounded exhaustive input enumeration vs reference model"),
     "C03": ("model_checking", E2, "4 C03",
-            "Explicit-state exploration of fill / fill_n / << histories on live histograms: state = multiset of entries; every transition is checked against the entry-list model and against batch construction, every second path to a state must reproduce its snapshot (confluence = any chunking, any order); DFS without merging validates the abstraction.",
+            "Explicit-state exploration of fill / fill_n / << histories on live histograms: state = multiset of entries; every transition is checked against the entry-list model and against batch construction, every second path to a state must reproduce its snapshot (confluence = any chunking, any order); DFS without merging validates the abstraction. A second, product-enumerated unit holds the history fixed and varies what the histories hold fixed: ten numeric types of the weights x five entry paths x 1D/2D/3D, NaN asked of find_bin, tracking switched off through every constructor, contents and squared errors assigned from one array.",
             "Trusted: state abstraction (multiset of entries) - validated by the path-exhaustive DFS. Bounds: multisets<=3 (quick) / 4-5 (thorough), batches<=2-3.",
             "explicit-state BFS over operation histories with confluence oracle"),
     "C04": ("model_checking", E2, "4 C04",
